@@ -634,7 +634,7 @@ func drawGrepOpts(t *simrt.Tape, recs []Rec) grepOpts {
 		case 3:
 			o.MaxCount = 1 + t.Choose(5)
 		case 4:
-			o.SeqPat = append(o.SeqPat, []string{"^a", "gg", "acg.*t", "t$", "[ct]a[ag]"}[t.Choose(5)])
+			o.SeqPat = append(o.SeqPat, []string{"^a", "gg", "acg.*t", "t$", "[ct]a[ag]", `\Aa`, "GG", `c\z`, `[^\W]{3}g`}[t.Choose(9)])
 		case 5:
 			o.DefPat = append(o.DefPat, []string{"some", "text$", "^other"}[t.Choose(3)])
 		case 6:
@@ -1133,6 +1133,42 @@ func c16Distribute(rc *RunCtx, t *simrt.Tape, dir string, p parCfg) {
 	}
 	args = append(args, in)
 	rc.Out.Sample = map[string]any{"command": "obidistribute", "options": relArgs(args, dir), "records": n, "config": p.String()}
+	if mode <= 1 && !withDir && t.Choose(6) == 5 {
+		// the output file of one class cannot be created (a directory bears its name): the
+		// records of that class reach no file, so the command must not end successfully
+		blocked := ""
+		for _, r := range recs {
+			if v, ok := r.Annot["sample"]; ok {
+				blocked = fmt.Sprint(v)
+				break
+			}
+		}
+		bpath := filepath.Join(dir, "part_"+blocked+".fasta"+suffix)
+		if blocked != "" {
+			if _, err := os.Lstat(bpath); err == nil {
+				blocked = "" // the file already exists (written by the first run of an append scenario)
+			} else if os.MkdirAll(bpath, 0755) != nil {
+				blocked = ""
+			}
+		}
+		if blocked != "" {
+			co := rc.c16Run("obidistribute", args, dir, p)
+			rc.Fault("obidistribute_class_file_cannot_be_created")
+			rc.Out.Nontrivial = true
+			rc.Out.Key = fmt.Sprintf("obidistribute-blocked/%v/%s/%s", relArgs(args, dir), p, co.Sig)
+			switch {
+			case co.TimedOut || co.StepCap:
+				rc.Inconclusive("%s", co.Describe())
+			case co.Deadlock:
+				rc.Violate("C16/obidistribute/hang-on-unwritable-class", "obidistribute %v: %s", relArgs(args, dir), co.Describe())
+			case co.Crashed || co.Failed():
+				rc.Probe("command_reported")
+			default:
+				rc.Violate("C16/obidistribute/class-without-output", "obidistribute %v (%s) exited with status 0 although the file of class %q could not be created (a directory has its name): its records are in no output", relArgs(args, dir), p, blocked)
+			}
+			return
+		}
+	}
 	co := rc.c16Run("obidistribute", args, dir, p)
 	rc.Out.Nontrivial = co.Contended > 0
 	rc.Out.Key = fmt.Sprintf("obidistribute/%v/%s/%s", relArgs(args, dir), p, co.Sig)
